@@ -267,6 +267,7 @@ class G1Locomotion(AbstractG1Env):
             armature_scale_range=self.armature_scale_range,
             mass_scale_range=self.mass_scale_range,
             torso_offset_range=self.torso_offset_range,
+            friction_pair_ids=self._foot_floor_pair_ids(),
         )
 
         qpos = self.init_qpos.at[7:].set(
